@@ -10,6 +10,7 @@ import (
 	"github.com/go-openapi/analysis/internal/flatten/replace"
 	"github.com/go-openapi/analysis/internal/flatten/schutils"
 	"github.com/go-openapi/analysis/internal/flatten/sortref"
+	"github.com/go-openapi/jsonpointer"
 	"github.com/go-openapi/spec"
 	"github.com/go-openapi/swag"
 )
@@ -42,7 +43,7 @@ func (isn *InlineSchemaNamer) Name(key string, schema *spec.Schema, aschema *Ana
 		// replace values on schema
 		debugLog("rewriting schema to ref: key=%s with new name: %s", key, newName)
 		if err := replace.RewriteSchemaToRef(isn.Spec, key,
-			spec.MustCreateRef(path.Join(definitionsPath, newName))); err != nil {
+			spec.MustCreateRef(path.Join(definitionsPath, jsonpointer.Escape(newName)))); err != nil {
 			return ErrInlineDefinition(newName, err)
 		}
 
@@ -69,7 +70,7 @@ func (isn *InlineSchemaNamer) Name(key string, schema *spec.Schema, aschema *Ana
 
 			// rewrite $ref to the new target
 			if err := replace.UpdateRef(isn.Spec, k,
-				spec.MustCreateRef(path.Join(definitionsPath, newName))); err != nil {
+				spec.MustCreateRef(path.Join(definitionsPath, jsonpointer.Escape(newName)))); err != nil {
 				return err
 			}
 		}
